@@ -71,7 +71,8 @@ def gen(rng, i, tier):
     uni = rng.choice(['int', 'pool'])
     labs = G.labels(rng, uni, rng.randint(2, 4))
     obj = c02.random_poly(rng, labs) if rng.random() < 0.3 else []
-    return {"obj": G.jraw(obj), "calls": [gen_call(rng, labs) for _ in range(rng.choice([1, 1, 1, 2, 3]))]}
+    return {"obj": G.jraw(obj), "calls": [gen_call(rng, labs) for _ in range(rng.choice([1, 1, 1, 2, 3]))],
+            "touch": rng.choice([None, None, "refresh", "copy"])}
 
 
 def twin_ok(case):
@@ -83,7 +84,14 @@ def run_impl(case):
     import qubovert as qv
     H = qv.PCSO({k: C.num(v) for k, v in G.unjraw(case["obj"])})
     out = {"obs": [], "error": None, "checks": []}
-    for c in case["calls"]:
+    for j, c in enumerate(case["calls"]):
+        # maintenance between two constraints: nothing the next call relies on may be lost (only when no variable is stale,
+        # because refresh / copy legitimately forget stale variables and the model run does not perform them)
+        if j and case.get("touch") and H.variables == {i for k in H for i in k}:
+            if case["touch"] == "refresh":
+                H.refresh()
+            else:
+                H = H.copy()
         P = {k: C.numf(v, 'q') for k, v in G.unjraw(c["P"])}
         snapP = C.snapshot(P)
         lam = C.num(F(*c["lam"]))
